@@ -289,6 +289,16 @@ func (c *Conn) pump() []hlref.Tran {
 	return ts
 }
 
+// Tail returns a copy of the last n bytes received so far (for a ReadHook that wants to look at what just arrived).
+func (c *Conn) Tail(n int) []byte {
+	c.mu.Lock()
+	defer c.mu.Unlock()
+	if n > len(c.rx) {
+		n = len(c.rx)
+	}
+	return append([]byte{}, c.rx[len(c.rx)-n:]...)
+}
+
 // Poll moves newly arrived transactions into the inbox and returns them.
 func (c *Conn) Poll() []hlref.Tran {
 	ts := c.pump()
